@@ -12,7 +12,7 @@ TIERS = {
     "C15": {"quick": 1400, "thorough": 40000},
     "C16": {"quick": 1100, "thorough": 24000},
 }
-WALL_CAP = {"quick": 150, "thorough": 2400}
+WALL_CAP = {"quick": 240, "thorough": 4200}
 MIN_FRACTION = 0.25  # fewer completed runs than this fraction of the plan = harness error, not a pass
 MAX_REPORTED = 4
 
